@@ -176,13 +176,21 @@ func families(thorough bool) (out, small []string) {
 				alpha = MsgAlphabet(g, 5)
 			}
 			for _, kvs := range vectors(alpha, n) {
-				for _, keyed := range []bool{false, true} {
+				keyModes := []string{"nil", "half"}
+				if thorough && n == 3 {
+					keyModes = append(keyModes, "heavy")
+				}
+				for _, keyed := range keyModes {
 					vs, ks := make([]int, n), make([]int, n)
 					for i, kv := range kvs {
-						if keyed {
+						switch keyed {
+						case "half":
 							ks[i] = kv / 2
 							vs[i] = kv - kv/2
-						} else {
+						case "heavy": // the key carries all but the three bytes of the message id
+							ks[i] = kv - 3
+							vs[i] = 3
+						default:
 							ks[i], vs[i] = -1, kv
 						}
 					}
@@ -290,7 +298,7 @@ func gcd(a, b int) int {
 
 const FamilyRule = "A: every vector of 3 key+value sizes over the per-generation boundary alphabet of MaxMessageBytes=200 (quick: 6 letters; thorough: all 9 letters, and vectors of 4 over 5 letters) " +
 	"(small; pairs just below/at/above sarama's partition-batch estimate; half the limit; exactly at / one above sarama's per-message measure; the limit and limit+1 in raw bytes) " +
-	"x keys nil / key = half of the bytes x partition layouts x Flush{Messages 0/2, Bytes 0/120, Frequency 0/100ms, MaxMessages 0/2} x generation v0/v1/v2 x policy drain/input; " +
+	"x keys nil / key = half of the bytes (thorough, vectors of 3: also key = all but 3 bytes) x partition layouts x Flush{Messages 0/2, Bytes 0/120, Frequency 0/100ms, MaxMessages 0/2} x generation v0/v1/v2 x policy drain/input; " +
 	"B: three to five small messages x eight partition layouts (a later message opening a new partition batch) x the same Flush matrix (count limit); C1: MaxRequestSize=12288 and one message whose value length runs byte by byte over [limit-150, limit+2] (nil key; key of 500 bytes) x generation; " +
 	"C2: vectors of 3 (thorough: 4) value sizes around sarama's batching threshold (MaxRequestSize-10KiB) x Flush matrix x layouts x generation x policy; " +
 	"D: lone messages (1 or 3 in a row, one at a time) x Flush.Messages 0/1/2 x Flush.Bytes 0/20/4000 x Flush.Frequency 0/100ms x generation. " +
